@@ -94,6 +94,11 @@ func c05Get(ti int, initial bool, ndef int, envDelim bool, nest int, nsDelim int
 		top.Opts = []*decl.Opt{other}
 		top.Groups = []*decl.Group{{Field: "Outer", Name: "Outer", Groups: []*decl.Group{{Field: "Inner", Name: "Inner", EnvNamespace: "IN", Opts: []*decl.Opt{o}}}}}
 		ns, sect = []string{"IN"}, "Inner"
+	case 5: // the option belongs to a subcommand, which the command line selects only when the option occurs on it
+		top.Opts = []*decl.Opt{other}
+		top.SubOptional = true
+		top.Cmds = []*decl.Cmd{{Field: "Sub", Name: "sub", Opts: []*decl.Opt{o}}}
+		sect = "sub"
 	}
 	switch cfgPos {
 	case 1:
@@ -135,7 +140,7 @@ func init() {
 		nini := c.Choose(3)
 		hi := c.Choose(len(c05Histories))
 		hist := c05Histories[hi]
-		nest := c.Deviate(5)
+		nest := c.Deviate(6)
 		nsDelim := c.Deviate(3)
 		if isBool && ncli == 2 {
 			c.Skip()
@@ -194,6 +199,12 @@ func init() {
 			} else {
 				argv = append(argv, "--opt="+v)
 			}
+		}
+		if nest == 5 && ncli > 0 {
+			argv = append([]string{"sub"}, argv...)
+		}
+		if nest == 5 {
+			c.Hit("option-of-a-command")
 		}
 		switch hist {
 		case "config-flag-before":
@@ -390,10 +401,10 @@ func init() {
 		DevBound:   func(bool) int { return 2 },
 		Rule: "10 option types (string, int, bool, *int, []string, []int, map[string]int, Unmarshaler, map[string]string with one key in every source, a slice-kinded Unmarshaler that appends) x initial value present/absent x 0..2 default tags x environment {unset, one value, two values with env-delim, set-but-empty} " +
 			"x 0..2 INI entries x 0..2 command-line occurrences x 10 histories (CLI only; INI then CLI; as-defaults INI then CLI; CLI then as-defaults INI; as-defaults, CLI, as-defaults; as-defaults read from a callback option given before / after the occurrences; " +
-			"from a callback option's default declared first / last; two as-defaults reads then CLI) x env-namespace nesting {none, outer, outer+inner, outer only around a plain inner group, inner only inside a plain outer group} x EnvNamespaceDelimiter {_, empty, __} (nesting/delimiter deviation-bounded); one more deviation uses a single IniParser object for all reads of a history; a second []string option initialised from the same backing array must keep its value; " +
+			"from a callback option's default declared first / last; two as-defaults reads then CLI) x env-namespace nesting {none, outer, outer+inner, outer only around a plain inner group, inner only inside a plain outer group, option declared on a subcommand that the command line selects only when the option occurs} x EnvNamespaceDelimiter {_, empty, __} (nesting/delimiter deviation-bounded); one more deviation uses a single IniParser object for all reads of a history; a second []string option initialised from the same backing array must keep its value; " +
 			"the history machine per option is {untouched, defaulted, ini, explicit}; oracle = precedence function CLI > INI > env > default tags > initial, multi-valued options holding exactly the winner's values",
 		Assumptions:  []string{"plain-mode INI read after a command-line parse is not ranked by the statement and is not exercised", "an empty environment value for a non-string option is skipped"},
-		RequiredHits: []string{"winner:cli", "winner:ini", "winner:env", "winner:default", "winner:initial", "history:CD", "history:DCD", "history:config-flag-after", "history:config-default-last"},
+		RequiredHits: []string{"winner:cli", "winner:ini", "winner:env", "winner:default", "winner:initial", "history:CD", "history:DCD", "history:config-flag-after", "history:config-default-last", "option-of-a-command"},
 		Bound:        [2]string{"complete product, <= 2 namespace deviations", "complete product, <= 2 namespace deviations"},
 		BudgetS:      [2]int{170, 600},
 	})
